@@ -80,6 +80,16 @@ func main() {
 		}
 		return
 	}
+	if *dump == "consts" {
+		abs, _ := filepath.Abs(*repo)
+		ctx, err := lint.Load(abs, "", lint.ModulePath, 11)
+		if err != nil {
+			fmt.Println(err)
+			os.Exit(2)
+		}
+		fmt.Print(ctx.ConstTable())
+		return
+	}
 	if *dump == "exported" {
 		abs, _ := filepath.Abs(*repo)
 		ctx, err := lint.Load(abs, "", lint.ModulePath, 11)
